@@ -810,6 +810,11 @@ def apply_op(doc, st, op, out):
     if t == 'geom':
         if not doc.geometries:
             return
+        if op.get('all'):
+            # the same edit on every geometry of the document
+            for i in range(len(doc.geometries)):
+                apply_op(doc, st, dict(op, gi=i, all=False, r=op.get('r', 0) + i), out)
+            return
         g = doc.geometries[op['gi'] % len(doc.geometries)]
         how = op['how']
         if how == 'src_add':
@@ -960,6 +965,35 @@ def apply_op(doc, st, op, out):
                 list_edit(mn.inputs, dict(op, how=how[4:]), r,
                           lambda: (r.choice(['TEX0', 'UV', 'CH1', 'CH2']), 'TEXCOORD',
                                    None if r.random() < 0.2 else str(r.randint(0, 3))))
+        return
+    if t == 'ref':
+        # references in both document orders, and renames of what is referred to
+        how = op['how']
+        if how in ('add_forward', 'add_backward'):
+            groups = [list(doc.nodes)] + [[t_ for t_ in sc.nodes if is_plain_node(t_)] for sc in doc.scenes]
+            groups = [g_ for g_ in groups if len([t_ for t_ in g_ if t_.id]) >= 2]
+            if groups:
+                grp = groups[op['pos'] % len(groups)]
+                i = op['pos2'] % (len(grp) - 1)
+                j = i + 1 + op['pos3'] % (len(grp) - 1 - i)
+                a, b = (grp[i], grp[j]) if how == 'add_forward' else (grp[j], grp[i])   # a refers to b
+                if b.id and is_plain_node(a) and not reaches(b, a):
+                    holder = r.choice([d for d in descendants(a) if is_plain_node(d)])
+                    holder.children.insert(r.randint(0, len(holder.children)), scene.NodeNode(b))
+        elif how == 'rename_target':
+            insts = [c for _, c in children_of_type(doc, scene.NodeNode)]
+            others = []
+            for cls, attr in ((scene.GeometryNode, 'geometry'), (scene.LightNode, 'light'), (scene.CameraNode, 'camera')):
+                others += [getattr(c, attr) for _, c in children_of_type(doc, cls)]
+            targets = [c.node for c in insts] if (insts and op.get('n', 1) != 3) else others
+            if op.get('all'):
+                seen_ = set()
+                for t_ in targets:
+                    if id(t_) not in seen_:
+                        seen_.add(id(t_))
+                        t_.id = st.fresh('reftarget')
+            elif targets:
+                targets[op['pos'] % len(targets)].id = st.fresh('reftarget')
         return
     if t == 'eparams':
         if not doc.effects:
